@@ -190,6 +190,64 @@ def flip_file(path):
     return n[0]
 
 
+def match_brace(text, k):
+    """index just after the brace closing the one opened at text[k-1] == '{' (strings, chars and comments skipped)"""
+    depth, p = 1, k
+    n = len(text)
+    while depth > 0 and p < n:
+        ch = text[p]
+        if ch == '"':
+            p += 1
+            while p < n and text[p] != '"':
+                p += 2 if text[p] == "\\" else 1
+        elif ch == "'" and re.match(r"'(\\.|[^\\'])'", text[p:p + 4]):
+            p += len(re.match(r"'(\\.|[^\\'])'", text[p:p + 4]).group(0)) - 1
+        elif text.startswith("//", p):
+            while p < n and text[p] != "\n":
+                p += 1
+        elif ch == "{":
+            depth += 1
+        elif ch == "}":
+            depth -= 1
+        p += 1
+    return p
+
+
+def invert_file(path):
+    """`if COND { A } else { B }` -> `if !(COND) { B } else { A }` for every plain if/else (no `if let`, no else-if
+    chain, condition on one line) in the non-test part of the file; innermost first is not needed: one pass, no
+    overlaps"""
+    txt = open(path).read()
+    cut = txt.find("#[cfg(test)]\nmod tests")
+    head, tail = (txt, "") if cut < 0 else (txt[:cut], txt[cut:])
+    out, i, n = [], 0, 0
+    for m in re.finditer(r"(?<![A-Za-z0-9_])if ([^{};\n]+?) \{", head):
+        if m.start() < i or m.group(1).startswith("let ") or " let " in m.group(1):
+            continue
+        pre = head[max(0, m.start() - 6):m.start()]
+        if pre.rstrip().endswith("else"):
+            continue
+        a0 = m.end()
+        a1 = match_brace(head, a0)
+        m2 = re.match(r"\s*else\s*\{", head[a1:])
+        if not m2:
+            continue
+        b0 = a1 + m2.end()
+        b1 = match_brace(head, b0)
+        if re.match(r"\s*else", head[b1:]):
+            continue
+        A, B = head[a0:a1 - 1], head[b0:b1 - 1]
+        if re.search(r"(?<![A-Za-z0-9_])if [^{};\n]+? \{", A + B) and False:
+            continue
+        out.append(head[i:m.start()] + "if !(%s) {%s} else {%s}" % (m.group(1), B, A))
+        i = b1
+        n += 1
+    out.append(head[i:])
+    if n:
+        open(path, "w").write("".join(out) + tail)
+    return n
+
+
 def build_ok(root, tgt):
     env = dict(os.environ, CARGO_NET_OFFLINE="true", CARGO_TARGET_DIR=tgt)
     for cmd in (["cargo", "check", "--offline", "--tests", "--quiet"],
@@ -203,7 +261,7 @@ def build_ok(root, tgt):
 
 def one(args):
     name, has_self, outdir, slot = args
-    mode = has_self if has_self in ("rename", "flip") else "swap"
+    mode = has_self if has_self in ("rename", "flip", "invert") else "swap"
     tmp = tempfile.mkdtemp(prefix="dryoc-perm-")
     root = os.path.join(tmp, "repo")
     try:
@@ -211,8 +269,8 @@ def one(args):
         subprocess.run(["git", "init", "-q", "."], cwd=root)
         subprocess.run(["git", "add", "-A"], cwd=root, capture_output=True)
         subprocess.run(["git", "-c", "user.email=a@b", "-c", "user.name=x", "commit", "-qm", "base"], cwd=root, capture_output=True)
-        if mode == "flip":
-            n = flip_file(os.path.join(root, name))
+        if mode in ("flip", "invert"):
+            n = (flip_file if mode == "flip" else invert_file)(os.path.join(root, name))
             if n < 1:
                 return name, "no-call-site"
             n = 2
@@ -222,7 +280,7 @@ def one(args):
             return name, "no-call-site"
         if not build_ok(root, os.path.join(VERIF, ".work", "target-perm-%d" % slot)):
             return name, "does-not-compile"
-        d = os.path.join(outdir, {"rename": "n-", "flip": "f-"}.get(mode, "p-") + name.replace("src/", "").replace("/", "-").replace(".rs", "").replace("_", "-")[:40])
+        d = os.path.join(outdir, {"rename": "n-", "flip": "f-", "invert": "i-"}.get(mode, "p-") + name.replace("src/", "").replace("/", "-").replace(".rs", "").replace("_", "-")[:40])
         os.makedirs(d, exist_ok=True)
         diff = subprocess.run(["git", "diff", "--", "src"], cwd=root, capture_output=True, text=True).stdout
         open(os.path.join(d, "patch.diff"), "w").write(diff)
@@ -236,14 +294,14 @@ def main():
     ap.add_argument("--out", default=os.path.join(VERIF, "refactors"))
     ap.add_argument("--jobs", type=int, default=6)
     ap.add_argument("--list", action="store_true")
-    ap.add_argument("--mode", default="swap", choices=["swap", "rename", "flip"])
+    ap.add_argument("--mode", default="swap", choices=["swap", "rename", "flip", "invert"])
     a = ap.parse_args()
-    if a.mode == "flip":
+    if a.mode in ("flip", "invert"):
         fns = []
         for r_, _, fs_ in os.walk(os.path.join(REPO, "src")):
             for f_ in fs_:
                 if f_.endswith(".rs"):
-                    fns.append((os.path.relpath(os.path.join(r_, f_), REPO), "flip", None))
+                    fns.append((os.path.relpath(os.path.join(r_, f_), REPO), a.mode, None))
         fns.sort()
     else:
         fns = private_fns(os.path.join(REPO, "src")) if a.mode == "swap" else [(n, "rename", None) for n in private_fn_names(os.path.join(REPO, "src"))]
